@@ -10,29 +10,29 @@ import (
 	sdkmath "cosmossdk.io/math"
 	sdk "github.com/cosmos/cosmos-sdk/types"
 	authtypes "github.com/cosmos/cosmos-sdk/x/auth/types"
+	ammkeeper "github.com/elys-network/elys/x/amm/keeper"
 	ammtypes "github.com/elys-network/elys/x/amm/types"
 	aptypes "github.com/elys-network/elys/x/assetprofile/types"
 	burnertypes "github.com/elys-network/elys/x/burner/types"
 	ctypes "github.com/elys-network/elys/x/commitment/types"
 	epochstypes "github.com/elys-network/elys/x/epochs/types"
-	otypes "github.com/elys-network/elys/x/oracle/types"
-	tierkeeper "github.com/elys-network/elys/x/tier/keeper"
-	tiertypes "github.com/elys-network/elys/x/tier/types"
 	estypes "github.com/elys-network/elys/x/estaking/types"
-	ammkeeper "github.com/elys-network/elys/x/amm/keeper"
 	mckeeper "github.com/elys-network/elys/x/masterchef/keeper"
 	mctypes "github.com/elys-network/elys/x/masterchef/types"
 	okeeper "github.com/elys-network/elys/x/oracle/keeper"
+	otypes "github.com/elys-network/elys/x/oracle/types"
 	ptypes "github.com/elys-network/elys/x/parameter/types"
 	sstypes "github.com/elys-network/elys/x/stablestake/types"
+	tierkeeper "github.com/elys-network/elys/x/tier/keeper"
+	tiertypes "github.com/elys-network/elys/x/tier/types"
 	vrf "github.com/elys-network/elys/zzvrf"
 	"github.com/elys-network/elys/zzvrf/wire"
 )
 
 const (
-	usdc  = "uusdc"
-	atom  = "uatom"
-	maxT  = 1 << 40
+	usdc = "uusdc"
+	atom = "uatom"
+	maxT = 1 << 40
 )
 
 var (
@@ -76,6 +76,7 @@ func guard(f func()) (panicked bool) {
 }
 
 // ---- stablestake BeginBlocker ----
+//
 //vrf:cover done
 //vrf:bound params symbolic within Params.Validate(); TotalValue, cash, height, time symbolic
 func H_Stablestake_BeginBlocker() {
@@ -250,6 +251,7 @@ func mcDistribution(withAmmPool bool) {
 }
 
 // masterchef EndBlocker, distribution over the stable-stake pool only
+//
 //vrf:summary (github.com/elys-network/elys/x/masterchef/keeper.Keeper).CollectGasFees => sumCollectDec
 //vrf:summary (github.com/elys-network/elys/x/masterchef/keeper.Keeper).CollectPerpRevenue => sumCollectDec
 //vrf:summary (github.com/elys-network/elys/x/masterchef/keeper.Keeper).CollectDEXRevenue => sumCollectDex
@@ -262,6 +264,7 @@ func mcDistribution(withAmmPool bool) {
 func H_Masterchef_EndBlocker_StablePool() { mcDistribution(false) }
 
 // masterchef EndBlocker, distribution over one amm pool (stable pool has zero TVL), optional external incentive
+//
 //vrf:summary (github.com/elys-network/elys/x/masterchef/keeper.Keeper).CollectGasFees => sumCollectDec
 //vrf:summary (github.com/elys-network/elys/x/masterchef/keeper.Keeper).CollectPerpRevenue => sumCollectDec
 //vrf:summary (github.com/elys-network/elys/x/masterchef/keeper.Keeper).CollectDEXRevenue => sumCollectDex
@@ -274,6 +277,7 @@ func H_Masterchef_EndBlocker_StablePool() { mcDistribution(false) }
 func H_Masterchef_EndBlocker_AmmPool() { mcDistribution(true) }
 
 // ---- oracle EndBlock ----
+//
 //vrf:cover done
 func H_Oracle_EndBlock() {
 	env := wire.New(wire.Opts{})
@@ -285,6 +289,7 @@ func H_Oracle_EndBlock() {
 
 // ---- epochs BeginBlocker with the real epoch hooks (oracle, commitment, burner, perpetual, estaking) ----
 // One epoch whose identifier is the burner's; arbitrary long gaps between blocks (several epochs behind).
+//
 //vrf:cover started ended idle
 //vrf:bound 1 epoch info (duration 1 day), symbolic start / current-epoch start / block times < 2^40; 2 denoms with symbolic balances at the burn address
 func H_Epochs_BeginBlocker() {
@@ -324,6 +329,7 @@ func H_Epochs_BeginBlocker() {
 
 // ---- amm EndBlocker with the real pricing code (no summaries): one queued exact-in request on a pool
 // with arbitrary (possibly dust / lopsided) reserves ----
+//
 //vrf:summary (github.com/elys-network/elys/x/tier/keeper.Keeper).GetMembershipTier => sumTier
 //vrf:cover done
 //vrf:bound 1 constant-product pool with symbolic reserves >= 1 and symbolic fee in [0, 2%], 1 queued exact-in request with symbolic amount / minimum; slippage tracks: none
@@ -356,3 +362,53 @@ func H_Amm_EndBlocker_RealPricing() {
 func sumTier(k tierkeeper.Keeper, ctx sdk.Context, user sdk.AccAddress) (sdkmath.LegacyDec, tiertypes.MembershipTier) {
 	return sdkmath.LegacyZeroDec(), tiertypes.Basic
 }
+
+// ---- conversion of fees / perpetual revenue paid in a non-base denom (masterchef end blocker) ----
+
+func convertFees(oraclePool bool) {
+	env, o := mcEnv()
+	ctx := env.Ctx
+	env.Aprof.SetEntry(ctx, aptypes.Entry{BaseDenom: atom, Denom: atom, Decimals: 6})
+	env.Oracle.SetAssetInfo(ctx, otypes.AssetInfo{Denom: atom, Display: "ATOM", Decimal: 6})
+	env.Oracle.SetAssetInfo(ctx, otypes.AssetInfo{Denom: usdc, Display: "USDC", Decimal: 6})
+	symPool(env)
+	if oraclePool {
+		// the outage case: the trading asset's price is absent (the priced case runs the weight-breaking-fee power
+		// series, which is out of reach)
+		vrf.Assume(o.pAtom.IsZero())
+		p, _ := env.Amm.GetPool(ctx, 1)
+		p.PoolParams.UseOracle = true
+		for i := range p.PoolAssets {
+			p.PoolAssets[i].ExternalLiquidityRatio = sdkmath.LegacyOneDec()
+		}
+		env.Amm.SetPool(ctx, p)
+	}
+	r := vrf.Int("feeAtom")
+	vrf.Assume(r.IsPositive())
+	holder := feeColl
+	if vrf.Bool("perpetualRevenue") {
+		holder = authtypes.NewModuleAddress("perpetual")
+	}
+	env.W.SetBal(holder, atom, r)
+	var err error
+	p := guard(func() { _, err = env.Mc.ConvertGasFeesToUsdc(ctx, usdc, holder) })
+	vrf.Assert(!p, "C18: converting collected fees never panics")
+	if p {
+		return
+	}
+	vrf.Cover("done")
+	if err != nil {
+		vrf.Cover("error: " + err.Error())
+	}
+	// the masterchef end blocker hands this error to baseapp
+	vrf.Assert(err == nil, "C18: a fee / revenue balance that cannot be converted now is skipped, not turned into an end-blocker error")
+}
+
+//vrf:cover done
+//vrf:bound 1 constant-product pool uatom/uusdc (1:1, symbolic reserves), a symbolic uatom balance at the fee collector or the perpetual revenue account; oracle prices arbitrary (absent included)
+//vrf:assert-ms 60000
+func H_Masterchef_ConvertFees_ConstantProduct() { convertFees(false) }
+
+//vrf:cover done
+//vrf:bound as above with an oracle pool whose trading-asset price is absent (outage)
+func H_Masterchef_ConvertFees_OraclePool_Outage() { convertFees(true) }
